@@ -50,7 +50,9 @@ def run_op(rep, h, nproc=None, bounds=None, replay_fn=None):
             rep.extra.setdefault("sample_validation_errors", []).append(dict(harness=h.label, observed=str(rec.get("observed"))[:300]))
     rep.note("%s: paths=%d decisions=%d viol_candidates=%d wall=%.1fs %s" % (
         h.label, stats["paths"], stats["decisions"], len(h.viol), stats["wall"], dict(h.counts)))
-    if isinstance(h, ops.OpHarness) and h.counts.get("ans_true", 0) + h.counts.get("ans_false", 0) > 0 and h.expected() is not None \
+    from . import cinf as _cinf
+    needs_twin = isinstance(h, ops.OpHarness) and (h.expected() is not None or (isinstance(h, _cinf.CHarness) and h.counts.get("ans_false", 0) > 0))
+    if needs_twin and h.counts.get("ans_true", 0) + h.counts.get("ans_false", 0) > 0 \
             and not h.witness.get("twin_negated_spec_detected"):
         rep.inconclusive.append("%s: vacuity twin (negated specification) was not refuted on any path" % h.label)
     if not h.viol:
